@@ -31,7 +31,11 @@ Member(u, m, name) == {<<name, p[1], p[2]>> : p \in {q \in (1..N(u)) \X (1..N(u)
                                                    m[q[1]][q[2]] # "unhashable" /\ (m[q[1]][q[2]] = "t") # u.eq[q[1]][q[2]]}}
 Stable(u) == {<<"changed-by-rendering", i, i>> : i \in {x \in 1..N(u) : u.eq2[x] # u.eq[x] \/ u.h2[x] # u.h[x]}}
 
-Broken(u) == Refl(u) \cup Symm(u) \cup Trans(u) \cup HashCo(u) \cup NeNot(u)
+\* the library's own use of membership: joining an un-aliased table gives it an automatic alias exactly when it == a source of the statement
+\* (u.joinalias[i][j]: table j joined onto FROM table i; "n/a" where the decision is not taken)
+JoinMember(u) == {<<"join-membership", p[1], p[2]>> : p \in {q \in (1..N(u)) \X (1..N(u)) :
+                                                   u.joinalias[q[1]][q[2]] \in {"t", "f"} /\ (u.joinalias[q[1]][q[2]] = "t") # u.eq[q[2]][q[1]]}}
+Broken(u) == Refl(u) \cup Symm(u) \cup Trans(u) \cup HashCo(u) \cup NeNot(u) \cup JoinMember(u)
              \cup Member(u, u.inset, "set-membership") \cup Member(u, u.indict, "dict-membership")
              \cup Member(u, u.inlist, "list-membership") \cup Stable(u)
 
